@@ -12,13 +12,13 @@ CHECKS = {
             "Histories of API calls interleaved with caller-side mutations of everything the library returned and with cache flushes are generated "
             "and shrunk as one value; after every call the canonical result must equal what 8-16 fresh interpreters (different PYTHONHASHSEED, "
             "different call orders) agree on, inputs are snapshotted before/after each call, and every call whose result was mutated is re-issued "
-            "at the end of the history.",
+            "at the end of the history; after every call the caller's own argument objects are modified and the result must not follow. Histories run in forked children of a worker that never called the library (hermetic, cold start).",
             "Trusted: canonicalisation of results to JSON; cold cache = cleared module-level cache dicts; finite catalogue (~450 calls), histories up to 30/60 steps.",
             "DESIGN.md §4 C13"),
     "C10": ("Hypothesis states (Clifford+T, continuous rotations, GHZ/W templates, mixtures by injection) per configuration; exact outcome statistics from a dense simulator fed through a duck-typed result; oracle Tr(rho P) for all 4^n Paulis",
             "The tomography circuits the library returns are simulated exactly and the fitter's 4^n expectation values and density matrix are compared "
             "with dense algebra (1e-9). One Hypothesis search per configuration (all 20 in every run); the operator-space rank of the sampled states is "
-            "reported (full rank 4^n for n<=3 in quick, n<=4 in thorough), which with linearity of the fitter extends exactness to all states there.",
+            "reported (full rank 4^n for n<=3 in quick, n<=4 in thorough), which with linearity of the fitter extends exactness to all states there; a generic state per configuration and in-process sequences over the configurations of n are part of every run; statistics are handed over as probabilities, rescaled floats and exact integer counts.",
             "Trusted: dense simulator and its little-endian conventions (self-tested). A continuum is sampled; mixed states are injected behind an empty preparation circuit.",
             "DESIGN.md §4 C10"),
     "C11": ("Hypothesis: register size, ORDERED qubit lists (sorted/reversed/mirror-symmetric/generic), configuration, entangled states; oracle: partial trace in list order, both APIs, reduced and full-register mode",
@@ -28,7 +28,7 @@ CHECKS = {
             "DESIGN.md §4 C11"),
     "C12": ("Hypothesis (stabilizer member x state) per configuration + all groups n=2,3; exact statistics; oracle <psi|P|psi> over the unsigned span of the given generators",
             "Stabilizer-measurement circuits are simulated exactly; the fitter must report exactly the 2^n unsigned group elements with Tr(rho P). "
-            "Stabilizers come from every configuration with random signs, bases and formats; states are non-eigenstates with continuous parameters.",
+            "Stabilizers come from every configuration with random signs, bases and formats, including one member of every (configuration, LC class), so every table circuit serves as readout once per run; states are non-eigenstates with continuous parameters.",
             "Trusted: dense simulator, own span enumeration. Sampled states.",
             "DESIGN.md §4 C12"),
     "C07": ("Hypothesis gate sequences (0..300 gates, macros for redundant patterns) x configurations, collect-then-shrink, vs. dense-simulation fidelity, coupling table, LC-oracle class cost and input snapshot",
@@ -54,7 +54,7 @@ CHECKS = {
     "C15": ("exhaustive pairs of groups (n=2,3), exhaustive groups x qubits (n<=4), Hypothesis pairs with planted equal / one-generator-apart groups, vs. RREF canonical form and brute-force span",
             "is_equivalent_mod_phase is compared with equality of canonical forms on all 18 450 ordered pairs for n<=3 (random bases, signs, "
             "formats) and on generated pairs for n=4..6; expand() and is_qubit_entangled are compared with brute-force span enumeration on every "
-            "group for n<=4 and constructed members of every class for n=5,6.",
+            "group for n<=4, constructed members of every class for n=5,6 and named textbook states in several random generator bases.",
             "Trusted: own canonical form and span enumeration.",
             "DESIGN.md §4 C15"),
     "C16": ("exhaustive (n=2 operator sets; all groups x all graphs n<=3 quick / n<=4 thorough) + Hypothesis (uniform / planted / corrupted) vs. brute force over all 6^n layers",
@@ -68,7 +68,7 @@ CHECKS = {
             "Every returned preparation circuit is simulated by a from-scratch dense simulator and every given signed operator must stabilise the "
             "result. Quick enumerates all groups for n<=3 with all sign vectors and all 2295 four-qubit groups; thorough enumerates all groups n<=4 "
             "with all sign vectors and all 75 735 five-qubit groups on all configurations; n=6 is covered by constructed members of all 760 classes "
-            "on all 7 configurations. Exhaustive on the enumerated part, sampled (stratified, every class x configuration hit) beyond it.",
+            "on all 7 configurations, the canonical generators of the graph stored in each of the 5962 table entries, named textbook states in uniform frames, multi-register / metadata-carrying circuit inputs, and a deferred re-verification of circuits handed out earlier. Exhaustive on the enumerated part, sampled (stratified, every class x configuration hit) beyond it.",
             "Trusted: dense simulator (literal matrices); qiskit's instruction reporting. Six-qubit groups, generator bases and formats are sampled.",
             "DESIGN.md §4 C01"),
     "C02": ("generated circuits of every API kind (stratified members, all MUB circuits, Hypothesis ordered qubit subsets) inspected against a transcribed edge table",
@@ -86,7 +86,7 @@ CHECKS = {
     "C04": ("metamorphic: constructed members of one LC class must agree with each other and with lookup metadata (own gate counter / ASAP depth)",
             "For every (configuration, class) several members with independent local Cliffords, bases and signs are sent through preparation, "
             "readout and compression; two-qubit count, depth and the multiset of two-qubit instructions must equal the metadata / table line "
-            "of the class determined by the independent LC oracle.",
+            "of the class determined by the independent LC oracle; every graph on n<=5 vertices (and drawn six-vertex graphs) is additionally presented literally in graph form.",
             "Trusted: LC-orbit oracle, own gate counter; members are sampled (every class x configuration hit in every run).",
             "DESIGN.md §4 C04"),
     "C06": ("exhaustive enumeration of all stabilizer groups (n<=5 quick, n<=6 thorough) + class-stratified construction vs. LC-orbit oracle (bijection id <-> orbit)",
@@ -105,22 +105,22 @@ CHECKS = {
     "C18": ("exhaustive enumeration of all small matrices + Hypothesis (4 distributions, collect-then-shrink) vs. brute-force span/kernel oracle",
             "All 35 978 binary matrices with m*n <= 12 are enumerated in every run and larger shapes (up to 40 x 28, the shapes the "
             "layer search uses) are sampled by Hypothesis; outputs are compared with an independent bitmask elimination that is itself "
-            "cross-checked by brute-force span/kernel enumeration. Decides the property on the enumerated domain, samples beyond it.",
+            "cross-checked by brute-force span/kernel enumeration; a share of the cases is preceded by calls on related matrices (reshaped, transposed, re-typed, one bit flipped). Decides the property on the enumerated domain, samples beyond it.",
             "Trusted: numpy integer arithmetic; own elimination (validated by brute force on every small case).",
             "DESIGN.md §4 C18"),
     "C19": ("exhaustive enumeration of all graphs x vertices, class ids and codec indices vs. adjacency-bitmask oracle",
             "Every graph on 2..6 vertices, every vertex, every class id and every grouping index is visited in every run; finite domain, "
-            "complete enumeration, independent re-implementation of the documented bit layout and of local complementation.",
+            "complete enumeration, independent re-implementation of the documented bit layout and of local complementation; plus Hypothesis sequences of graph operations against a bitmask model with compress()/decompress() after every step.",
             "Trusted: adjacency-bitmask oracle (self-tested); in the quick tier the library classifier is re-run on every n<=5 graph and 1/8 of the n=6 graphs.",
             "DESIGN.md §4 C19"),
     "C09": ("exhaustive enumeration of all 20 MUB families x bases x group elements vs. Pauli-algebra oracle and gate counter",
             "All 744 bases of all 20 configurations and all 2^n elements of each are enumerated in every run: validity, partition of the "
-            "4^n-1 Paulis, diagonalisation by the index-aligned circuit, info dictionary vs. recount, cost vs. the library's readout circuit.",
+            "4^n-1 Paulis, diagonalisation by the index-aligned circuit, info dictionary vs. recount, cost vs. the library's readout circuit; plus in-process sequences over all configurations in shuffled orders.",
             "Trusted: bitmask Pauli algebra (validated against dense matrices each run), own gate counter.",
             "DESIGN.md §4 C09"),
     "C17": ("exhaustive enumeration of all table lines + differential parser + dense-simulation / LC-orbit oracle",
             "Every line of every stabilizer table on disk is visited in every run (exhaustive=true); each is checked "
-            "against a from-scratch tokenizer, dense simulator, LC-orbit oracle and gate counter. Exhaustive over a "
+            "against a from-scratch tokenizer, dense simulator, LC-orbit oracle and gate counter, and the library's own record of the line (StabilizerCircuitInfo / stabilizer_circuit_lookup) is compared with the strict parse. Exhaustive over a "
             "finite domain, so the property is decided for the tree as it stands.",
             "Trusted: own dense simulator / LC oracle (self-tested per run), Van den Nest theorem, transcribed coupling table.",
             "DESIGN.md §4 C17"),
